@@ -28,7 +28,7 @@ RULE = ("a ThreadedWriter around a recording destination (with a failure mask ov
         "stopService's result completes; nothing is passed twice; per-producer order and real-time order of non-overlapping offers "
         "are kept; all writes of a cycle happen on one thread that is none of the callers; a destination exception loses only that "
         "message; in part of the runs the wrapped destination itself offers a message from inside its call (never handled re-entrantly, "
-        "queued behind everything offered before); with a stalled destination (logical clock) further offers never wait; a redundant stopService() "
+        "queued behind everything offered before); with a stalled destination (logical clock) further offers never wait; messages buffered by eliot before any destination existed are handed to the writer by startService itself and written first; a redundant stopService() "
         "(not running) raises ValueError and leaves nothing behind for the next cycle; part 'signals' (forked child, OS scheduling): an interval "
         "timer's handler offers messages on the thread that is itself offering 30 000 messages - no offer blocks, both sequences are written in order; two fifths of the messages are dict subclasses whose == answers "
         "True to anything or only works against mappings, half of the destination failures carry unhashable arguments. non-trivial = schedule whose preemption fired in logwriter.py or with stop concurrent to offers; distinct by "
